@@ -190,7 +190,8 @@ def plane_of(s: str) -> str:
     return "other"
 
 
-PATTERN_ALPHABET = [["\\", "\\\\", "'", '"', "\\'", "\t", "\n", "\x00", "\x7f", "\x1f"], list("^$.*+d[]()|a1 "), ["\\d", "\\.", "\\w+", "é", "\x80"]]
+PATTERN_ALPHABET = [["\\", "\\\\", "'", '"', "\\'", "\t", "\n", "\x00", "\x7f", "\x1f"], list("^$.*+d[]()|a1 "),
+                    ["\\d", "\\.", "\\w+", "é", "\x80", "\x85", "\xa0", "\xad", "\u2028", "\u2029", "\u0378", "\U0001f600"]]
 
 
 def campaign_pattern(ck: Check, n: int) -> None:
@@ -199,7 +200,7 @@ def campaign_pattern(ck: Check, n: int) -> None:
     rng = ck.rng.fork("pattern")
     from datamodel_code_generator.model.pydantic.types import pattern_literal
 
-    cases = [gens.adversarial(rng, 6, PATTERN_ALPHABET) for _ in range(n)] + ["", "\\", "\\\\", "a\\", "'", "^abc", "\x7f"]
+    cases = [gens.adversarial(rng, 6, PATTERN_ALPHABET) for _ in range(n)] + ["", "\\", "\\\\", "a\\", "'", "^abc", "\x7f", "a\x85b", "a\u2028", "\u2029b", "\xa0", "é"]
     replies = ck.driver.run([f"esc.rawsafe {hx(s)}" for s in cases])
     for s, rep in zip(cases, replies):
         camp.evaluations += 1
@@ -207,6 +208,8 @@ def campaign_pattern(ck: Check, n: int) -> None:
         impl_raw = lit.startswith("r'")
         model_raw = rep == "ok true"
         camp.hit("raw" if impl_raw else "repr")
+        if not s.isprintable() and not any(ord(c) < 32 or ord(c) == 127 for c in s):  # noqa: PLR2004
+            camp.hit("non_printable_above_ascii")
         camp.distinct.add(s)
         if model_raw != impl_raw:
             ck.disagree(camp, {"pattern": s}, "raw" if model_raw else "repr", lit)
@@ -628,6 +631,9 @@ def run(ck: Check) -> None:
     # a translator that throws (the code no longer has the shape it reads) leaves a stale table: broken obligations, not exit 2
     shape.translate(ck, "EscTables", esc.generate)
     shape.translate(ck, "Templates", templates.generate)
+    from ..translate import printable  # str.isprintable table: the driver handler esc.rawsafe decides with it
+
+    shape.translate(ck, "Printable", printable.generate)
     # the templates themselves (jinja2's own parse) for the Lean lexical analysis: template_lexically_closed,
     # python_site_table_is_lean_analysis are re-checked by the kernel against the sources of this run
     from ..translate import template_ast
